@@ -4,20 +4,27 @@ TARGETS = {
     "c03_galerkin_sa": dict(src="props/c03_galerkin_sa.cpp", flavors=["gcc", "asan"], asan_div=10),
     "c03_galerkin_emin": dict(src="props/c03_galerkin_emin.cpp", flavors=["gcc", "asan"], asan_div=10),
     "c03_galerkin_rs": dict(src="props/c03_galerkin_rs.cpp", flavors=["gcc", "asan"], asan_div=10),
+    "c03_galerkin_complex": dict(src="props/c03_galerkin_complex.cpp", flavors=["gcc", "asan"], asan_div=10),
+    "c03_galerkin_block": dict(src="props/c03_galerkin_block.cpp", flavors=["gcc", "asan"], asan_div=10),
 }
 
 PROPS = {
     "C03": dict(
-        targets=["c03_galerkin_aggr", "c03_galerkin_sa", "c03_galerkin_emin", "c03_galerkin_rs"],
+        targets=["c03_galerkin_aggr", "c03_galerkin_sa", "c03_galerkin_emin", "c03_galerkin_rs", "c03_galerkin_complex", "c03_galerkin_block"],
         level="exploration",
         rule="histories: a tape-decoded hierarchy amg<builtin, recording<C>, Relax> for C in {aggregation, smoothed_aggregation, smoothed_aggr_emin, ruge_stuben} x Relax in {spai0, damped_jacobi, "
              "gauss_seidel, ilu0} on matrices from vf::gen_graph (n up to 200) with M-matrix / convection-diffusion / diagonally dominant mixed-sign value families (real and integer valued, "
              "optionally structurally non-symmetric, optionally with unsorted input rows, block_size 2 and 0..2 near-null-space vectors for the aggregation family), random coarsening parameters "
              "(eps_strong, over_interp, relax, spectral radius estimate, truncation), coarse_enough, max_levels, direct_coarse, npre/npost/ncycle/pre_cycles, followed by up to 8 commands from "
              "{apply(v), rebuild(perturbed values), rebuild(2^k A), rebuild(original), rebuild(other pattern, same n)}; run under 1 OpenMP thread (spgemm_saad) and 17 threads (spgemm_rmerge). "
-             "non-trivial: the hierarchy has >=2 levels, pre_cycles>=1, and the history contains a rebuild with a changed matrix followed by an apply. "
+             "Value types with a non-trivial entrywise adjoint (c03_galerkin_complex / c03_galerkin_block): std::complex<double> (Hermitian positive definite, Gaussian-integer Hermitian and general "
+             "complex diagonally dominant matrices; aggregation, smoothed_aggregation, smoothed_aggr_emin) and static_matrix<double,2,2> blocks (block-symmetric and general block matrices with "
+             "non-symmetric blocks; aggregation, smoothed_aggregation) x {spai0, damped_jacobi, gauss_seidel}, n up to 120, up to 5 commands, same oracles with R == P^H / blockwise transpose and a "
+             "scalar-expanded long-double-complex reference product. "
+             "non-trivial: the hierarchy has >=2 levels, pre_cycles>=1, and the history contains a rebuild with a changed matrix followed by an apply (value-type TUs: >=2 levels and a prolongation "
+             "that carries entries which are not self-adjoint). "
              "distinct = distinct decoded choice sequences (64-bit hash), united over shards.",
-        assumptions=["long double sparse triple product with the scale sum|r||a||p| is the reference for the Galerkin operator; tolerance 4(terms+4)u per entry",
+        assumptions=["long double sparse triple product with the scale sum|r||a||p| is the reference for the Galerkin operator; tolerance 4(terms+4)u per entry (8(terms+4)u on the scalar-expanded complex / block product)",
                      "the over-interpolation factor is applied in single precision (float parameter; scaled_galerkin takes float 1/over_interp), the reference mirrors that factor",
                      "a 'fresh hierarchy assembled from A' with those operators' is amg<builtin, replaying, Relax>(A') with the same amg parameters, using amgcl's own (scaled_)galerkin as coarse operator",
                      "bitwise comparison of apply() outputs is made inside one process at one OpenMP thread count (also at 17 threads: both hierarchies use the same SpGEMM algorithm and static schedules)"],
